@@ -81,7 +81,20 @@ fn mapping(rng: &mut Rng) -> Value {
     m.insert("to".into(), keys_v(rng, 0));
   }
   if rng.chance(1, 3) { m.insert("repeat".into(), repeat(rng, row)); }
-  if rng.chance(1, 4) { m.insert("absorbing".into(), if rng.chance(1, 2) { key(rng) } else { keys_v(rng, 0) }); }
+  if rng.chance(1, 4) {
+    // half of the time the absorbing attribute is built from the trigger's own modifiers and aliases
+    // (what the parser requires of it): all of them, some of them, now and then one of them twice or
+    // one that is not in the trigger
+    let cands: Vec<Value> = match m.get("from") { Some(Value::Array(a)) => a.iter().filter(|x| x.as_str().map(|t| t.starts_with('@') || t.ends_with("SHIFT") || t.ends_with("CTRL") || t.ends_with("ALT") || t.ends_with("META")).unwrap_or(false)).cloned().collect(), _ => vec![] };
+    let v = if !cands.is_empty() && rng.chance(1, 2) {
+      let mut l: Vec<Value> = cands.iter().filter(|_| rng.chance(3, 4)).cloned().collect();
+      if l.is_empty() { l.push(cands[0].clone()); }
+      if rng.chance(1, 4) { let d = l[rng.below(l.len())].clone(); if rng.chance(1, 2) { l.push(d); } else { l.insert(0, d); } }
+      if rng.chance(1, 10) { l.push(key(rng)); }
+      if l.len() == 1 && rng.chance(1, 2) { l.pop().unwrap() } else { Value::Array(l) }
+    } else if rng.chance(1, 2) { key(rng) } else { keys_v(rng, 0) };
+    m.insert("absorbing".into(), v);
+  }
   if rng.chance(1, 12) { let k = rng.pick(&["from", "to", "repeat", "absorbing", "bogus"]); m.insert(k.into(), junk(rng)); }
   if rng.chance(1, 20) { m.remove("to"); }
   Value::Object(m)
